@@ -42,6 +42,7 @@ import (
 	"time"
 
 	"verifharness/pe"
+	"verifharness/pgp"
 )
 
 const (
@@ -662,6 +663,8 @@ func opFunc(fields []string) (func() string, int) {
 			n = len(fields[2]) / 2
 		}
 		return func() string { return pe.Handle(fields[1:]) }, n
+	case "PGP":
+		return func() string { return pgp.Handle(fields[1:]) }, pgp.InputLen(fields[1:])
 	case "APKBLK", "CSBLOB", "XAPSIG", "BINLOAD":
 		if len(fields) != 3 {
 			return nil, 0
